@@ -38,7 +38,7 @@ PROP_TIES = {
            _keys('Portfolio', 'transactAsset', ['err', 'refusal']),
     'C19': ['Universe.dynamicAssets', 'Optimiser.equalWeight', 'Alpha.singleSignal'],
     'C01': ['Portfolio.subscribe', 'Portfolio.withdraw', 'Portfolio.transactAsset'],
-    'C04': ['Broker.makeTxn'],
+    'C04': ['Broker.makeTxn#fill'],
     'C05': ['Broker.makeTxn', 'PercentFee.totalCost', 'ZeroFee.totalCost'],
     'C10': ['DW.normalise', 'DW.quantity', 'PercentFee.totalCost', 'ZeroFee.totalCost'],
     'C11': ['LS.normalise', 'LS.quantity', 'PercentFee.totalCost', 'ZeroFee.totalCost'],
